@@ -242,10 +242,10 @@ def _short(cells, limit=420):
 
 
 class Workbook:
-    def __init__(self, ctx, cells=None, models=None, world=None, sheets=None, names=None, cached=None, ignore_sheets=None, max_items=None):
+    def __init__(self, ctx, cells=None, models=None, world=None, sheets=None, names=None, cached=None, ignore_sheets=None, max_items=None, max_depth=None):
         self.ctx = ctx
         self.world = world if world is not None else World()
-        self.world.max_depth = 150
+        self.world.max_depth = max_depth or 150
         self.world.budget = 800000
         self.world.call_counts = {}
         if max_items is not None:
